@@ -12,7 +12,9 @@ import json,sys
 print(json.dumps(json.load(open(sys.argv[1]))["plan"]))
 PY
 if grep -q '"substrate": *"miri"' "$F"; then
-  ( cd "$SIM" && MIRIFLAGS="-Zmiri-disable-isolation -Zmiri-ignore-leaks" CARGO_TARGET_DIR="$SIM/target/miri" cargo +nightly miri run --offline --no-default-features -- run "$SIM/target/replay-plan.json" ) ; rc=$?
+  tgt="$(grep -o '"target": *"[a-z0-9_-]*"' "$F" | head -1 | sed 's/.*: *"\(.*\)"/\1/')"
+  targ=(); [ -n "$tgt" ] && targ=(--target "$tgt")
+  ( cd "$SIM" && MIRIFLAGS="-Zmiri-disable-isolation -Zmiri-ignore-leaks" CARGO_TARGET_DIR="$SIM/target/miri" cargo +nightly miri run --offline --no-default-features "${targ[@]}" -- run "$SIM/target/replay-plan.json" ) ; rc=$?
 else
   ( cd "$SIM" && CARGO_TARGET_DIR="$SIM/target/asan" RUSTFLAGS="-Zsanitizer=address" cargo +nightly build --offline --release --target x86_64-unknown-linux-gnu >/dev/null 2>&1 ) || exit 2
   ASAN_OPTIONS=detect_leaks=0 "$SIM/target/asan/x86_64-unknown-linux-gnu/release/microsim" run "$SIM/target/replay-plan.json"; rc=$?
